@@ -7,6 +7,7 @@ pub mod c01_commit;
 pub mod c05_revoke;
 pub mod c09_order;
 pub mod c10_restart;
+pub mod c12_serial;
 pub mod pay;
 
 pub struct Verdicts<'a> {
